@@ -469,7 +469,7 @@ func isEmptyValueFallbackRecur(urv *unsafeReflectValue, v reflect.Value, tinfos 
 		}
 		ti := tinfos.find(uintptr(urv.typ))
 		if ti == nil {
-			ti = tinfos.load(v.Type())
+			ti = tinfos.load(v.Type(), nil)
 		}
 		return unsafeCmpZeroRV(urv, int(ti.size))
 	case reflect.Interface, reflect.Ptr:
@@ -507,7 +507,7 @@ func isEmptyContainerValue(v reflect.Value, tinfos *TypeInfos, recursive bool) b
 		}
 		ti := tinfos.find(uintptr(urv.typ))
 		if ti == nil {
-			ti = tinfos.load(v.Type())
+			ti = tinfos.load(v.Type(), nil)
 		}
 		return unsafeCmpZeroRV(urv, int(ti.size))
 	case reflect.Interface, reflect.Ptr:
